@@ -18,8 +18,10 @@ the token-level parser) and holds for programs of ANY size.
 where `parsedInstr` ("Parsed", `QV.C02.Spec`) is the decidable predicate the parser's outputs satisfy and `≈`
 is equality up to the order of waveform-invocation parameters (`canonInstr`).  It is false of the current
 code for (see `docs/C02.md`, known findings): a RAW-CAPTURE into a region named `i` whose printed duration
-ends in a number (`C02_counterexample_rawCapture`), a multi-line definition nested in a DEFCIRCUIT body
-(`C02_counterexample_nestedCircuit`), and — for the used-qubit cache only — a redefined calibration.
+ends in a number (`C02_counterexample_rawCapture`), a qubit variable named like a reserved word
+(`C02_counterexample_keywordQubit`), and — for the used-qubit cache only — a redefined calibration.  (A
+fourth class, definitions nested in DEFCIRCUIT bodies, was repaired in /repo by b8ed6d0:
+`C02_regression_nestedCircuit`.)
 
 ## What is proved
 
@@ -114,9 +116,11 @@ theorem C02_counterexample_rawCapture :
     parsedInstr rawCaptureWitness = true ∧ printsAndReparses [rawCaptureWitness] = false := by
   decide
 
-/-- known finding C02/nested-definition-in-defcircuit: the re-indented nested DEFCAL does not parse -/
-theorem C02_counterexample_nestedCircuit :
-    parsedInstr nestedCircuitWitness = true ∧ printsAndReparses [nestedCircuitWitness] = false := by
+/-- FIXED by /repo b8ed6d0 (was the known finding C02/nested-definition-in-defcircuit: `CircuitDefinition::write`
+re-indented every line of the nested DEFCAL, which then did not parse): the nested definition now prints and
+re-parses — kept as a regression witness -/
+theorem C02_regression_nestedCircuit :
+    parsedInstr nestedCircuitWitness = true ∧ printsAndReparses [nestedCircuitWitness] = true := by
   decide
 
 /-- known finding C02/reparsed-unequal-after-redefined-calibration: the text round-trips, but qubit 5 is in
